@@ -1,6 +1,6 @@
 /-
   C05 — property theorems (and non-vacuity examples) ONLY.  Helper lemmas: `Lemmas.lean`, `Quoted.lean`,
-  `SpecExec.lean`, `Utf8.lean`.
+  `SpecExec.lean`, `Utf8.lean`, `DumpLemmas.lean`, `WorldLemmas.lean`.
 
   Property text: "For every directory tree and every field, pathname expansion returns exactly the
   existing pathnames that match the field component by component (slashes only match literally, a
@@ -14,7 +14,7 @@
   system `fs`; those that speak about "existing pathnames" assume the consistency `WF fs` of the two
   system oracles (`Spec.lean`).
 -/
-import YashModel.Glob.Utf8
+import YashModel.Glob.WorldLemmas
 namespace YashModel.Glob
 
 variable (m : Matcher) (fs : Fs) (field : List AttrChar)
@@ -296,6 +296,146 @@ theorem expandFields_noglob (mode : Mode) (fields : List (List AttrChar)) :
     | nil => rfl
     | cons f t ih => simp [List.flatMap_cons, ih, glob_noglob]
 
+/-! ### the property end to end -/
+
+/-- every Spec member exists and is one name per component, each name meeting the clauses of the
+    property (literal text / a real name that is not `.` or `..`, has no slash, is matched, and starts
+    with a period only if the component's text does) -/
+theorem specMember_clauses (hp : PeriodRule m) (p : Path) (h : SpecMember m fs field p) :
+    fs.exist p = true ∧ ∃ names, p = joinPath names
+      ∧ namesClauses m (splitComponents field).1 (splitComponents field).2 names := by
+  obtain ⟨names, hw, e⟩ := h
+  refine ⟨?_, names, e, witness_clauses m fs hp _ _ [] names hw⟩
+  have := witness_exist m fs _ _ [] names hw
+  simpa [e] using this
+
+/-- ★★ **The property, as one statement about `glob`**, for every matcher obeying the leading-period
+    rule, every file system with consistent oracles, every field and both settings of `noglob`:
+    1. with `noglob`, or when no pathname matches, the result is the field itself, quotes removed;
+    2. otherwise the result consists of exactly the Spec's pathnames (none nonexistent, none omitted),
+    3. as whole pathnames in strictly increasing byte order of their UTF-8 encodings (so also without
+       duplicates) — not merely name by name within each directory,
+    4. and every returned pathname exists and is made of one name per component: a component that is
+       not a pattern contributes its own text; a pattern component contributes a non-empty, slash-free
+       name other than `.` and `..` that the pattern matches, and one starting with a period only if
+       the component's text (quoted or not) starts with a period. -/
+theorem glob_property (hwf : WF fs) (hp : PeriodRule m) (noglob : Bool) :
+    ((noglob = true ∨ ∀ p, ¬ SpecMember m fs field p) → glob m fs noglob field = [removeQuotes field]) ∧
+    (noglob = false → (∃ p, SpecMember m fs field p) →
+      (∀ p, p ∈ glob m fs noglob field ↔ SpecMember m fs field p) ∧
+      (glob m fs noglob field).Pairwise (fun a b => utf8Bytes a < utf8Bytes b) ∧
+      (∀ p, p ∈ glob m fs noglob field → fs.exist p = true ∧ ∃ names, p = joinPath names
+        ∧ namesClauses m (splitComponents field).1 (splitComponents field).2 names)) := by
+  refine ⟨fun h => fallback_exact m fs field hwf noglob h, fun hng hne => ?_⟩
+  subst hng
+  have hc := glob_complete m fs field hwf hne
+  exact ⟨hc, glob_sorted_bytewise m fs field hwf false,
+    fun p hp' => specMember_clauses m fs field hp p ((hc p).mp hp')⟩
+
+/-- ★★ **What the driver prints.**  For the matcher and file system that the driver builds from a case
+    line (`mkMatcher tab`, `mkFs e l`) and its name set `univOf l`: whenever its decidable check
+    `wfDump e l` succeeds — the only situation in which it prints a Spec column — that column
+    (`specFieldsU`) equals the model column (`expandFields`), every field of a `Multiple` context
+    meets `SpecResult`, and if the table check `periodDump tab` succeeds as well, `glob_property`
+    applies to every field.  No hypothesis is left to trust. -/
+theorem driver_spec_column (tab : List MEntry) (e : List Path) (l : List (Path × List Name))
+    (noglob : Bool) (mode : Mode) (fields : List (List AttrChar)) (hwf : wfDump e l = true) :
+    specFieldsU (mkMatcher tab) (mkFs e l) (univOf l) noglob mode fields
+        = expandFields (mkMatcher tab) (mkFs e l) noglob mode fields
+      ∧ (∀ f, f ∈ fields → SpecResult (mkMatcher tab) (mkFs e l) noglob f
+            (glob (mkMatcher tab) (mkFs e l) noglob f)) :=
+  ⟨expandFields_eq_spec _ _ (wfDump_sound e l hwf) _ (univOf_covers e l) noglob mode fields,
+   fun f _ => glob_meets_spec _ _ f (wfDump_sound e l hwf) noglob⟩
+
+theorem driver_glob_property (tab : List MEntry) (e : List Path) (l : List (Path × List Name))
+    (hwf : wfDump e l = true) (hp : periodDump tab = true) :
+    WF (mkFs e l) ∧ PeriodRule (mkMatcher tab) ∧ UnivCovers (mkFs e l) (univOf l) :=
+  ⟨wfDump_sound e l hwf, periodDump_sound tab hp, univOf_covers e l⟩
+
+/-! ### the world behind the oracles: mode bits -/
+
+/-- what "reachable" says, bit by bit: the directory we are in is a directory whose mode has the
+    *owner's search bit* (0o100) — no group or other bit, no read bit is asked for — the next name is
+    present in it, and so on down the path -/
+theorem reachable_cons (w : World) (key : List Name) (n : Name) (ns : List Name) :
+    w.reachable key (n :: ns) = true ↔
+      (∃ mode, w.kindAt key = some (NodeKind.dir mode) ∧ mode / 64 % 2 = 1)
+        ∧ (w.kindAt (key ++ [n])).isSome = true ∧ w.reachable (key ++ [n]) ns = true := by
+  simp only [World.reachable, World.searchable, ownerSearch, Bool.and_eq_true]
+  constructor
+  · rintro ⟨⟨h1, h2⟩, h3⟩
+    refine ⟨?_, h2, h3⟩
+    cases hk : w.kindAt key with
+    | none => simp [hk] at h1
+    | some k =>
+      cases k with
+      | dir mode => exact ⟨mode, rfl, by simpa [hk] using h1⟩
+      | file => simp [hk] at h1
+      | link t => simp [hk] at h1
+  · rintro ⟨⟨mode, hk, hm⟩, h2, h3⟩
+    exact ⟨⟨by simp [hk, hm], h2⟩, h3⟩
+
+/-- ★ **A pathname of plain names exists iff every directory on it is searchable by its owner and
+    every name is there** (`fstatat` in the world model; the final node not being a symbolic link).
+    A model that asked for the group's or others' search bit, or for a read bit, would not satisfy
+    this (see the examples with modes 0700 and 0070 below). -/
+theorem world_exist_iff_searchable (w : World) (hroot : w.isDir [] = true) (names : List Name)
+    (hne : names ≠ []) (h : ∀ n, n ∈ names → plainName n = true)
+    (hl : ∀ tgt, w.kindAt (['t'] :: names) ≠ some (NodeKind.link tgt)) :
+    (fsOfWorld w).exist (joinPath names) = w.reachable [] (['t'] :: names) := by
+  have hg : w.get (absPath (joinPath names))
+      = if w.reachable [] (['t'] :: names) then some (['t'] :: names) else none := by
+    rw [absPath_rel _ (joinPath_head names hne h)]
+    exact get_plain w hroot names hne h
+  simp only [fsOfWorld, joinPath_nul names h, Bool.not_false, Bool.true_and]
+  rw [show (8 : Nat) = 7 + 1 from rfl, follow_succ, hg]
+  by_cases hr : w.reachable [] (['t'] :: names) = true
+  · rw [hr]
+    show (match w.kindAt (['t'] :: names) with
+      | some (NodeKind.link target) => w.follow 7 (retarget (absPath (joinPath names)) target)
+      | _ => true) = true
+    cases hk : w.kindAt (['t'] :: names) with
+    | none => rfl
+    | some k =>
+      cases k with
+      | link tgt => exact absurd hk (hl tgt)
+      | file => rfl
+      | dir mode => rfl
+  · have hr' : w.reachable [] (['t'] :: names) = false := by simpa using hr
+    simp [hr']
+
+/-- ★ **A directory of plain names can be listed iff it can be reached that way, is a directory, and a
+    descriptor is free** — `opendir` asks for no read permission; the listing is `.`, `..` and the
+    directory's entries. -/
+theorem world_list_iff (w : World) (hroot : w.isDir [] = true) (names : List Name)
+    (hne : names ≠ []) (h : ∀ n, n ∈ names → plainName n = true) :
+    (fsOfWorld w).list (joinPath names ++ ['/'])
+      = if w.fdFree && w.reachable [] (['t'] :: names) && w.isDir (['t'] :: names)
+        then some (dot :: dotdot :: w.children (['t'] :: names)) else none := by
+  have hnul : (joinPath names ++ ['/']).contains '\x00' = false := by
+    have := joinPath_nul names h
+    simp only [List.contains_eq_mem, List.mem_append, decide_eq_false_iff_not] at *
+    rintro (h1 | h1)
+    · exact this h1
+    · simp at h1
+  have habs : absPath (joinPath names ++ ['/']) = ['/', 't', '/'] ++ (joinPath names ++ ['/']) := by
+    apply absPath_rel
+    have h1 := joinPath_head names hne h
+    have h2 := joinPath_ne_nil names hne h
+    cases hj : joinPath names with
+    | nil => exact absurd hj h2
+    | cons c cs => rw [hj] at h1; simpa using h1
+  have hg := get_plain_slash w hroot names hne h
+  rw [← habs] at hg
+  simp only [fsOfWorld, hnul, Bool.false_or, hg]
+  by_cases hf : w.fdFree = true
+  · by_cases hr : w.reachable [] (['t'] :: names) = true
+    · by_cases hd : w.isDir (['t'] :: names) = true
+      · simp [hf, hr, hd]
+      · simp [hf, hr, hd]
+    · simp [hf, hr]
+  · simp [hf]
+
 /-! ### non-vacuity: a concrete system and matcher meeting every hypothesis, with a two-result expansion -/
 
 /-- three files `a`, `b`, `.h` in the working directory -/
@@ -397,6 +537,41 @@ example : UnivCovers fs₀ [['a'], ['b'], ['.', 'h']] := by
 -- a two-byte and a three-byte character: code-point order = byte order
 example : pathLe ['é'] ['€'] = true ∧ utf8Bytes ['é'] = [0xc3, 0xa9] ∧ utf8Bytes ['€'] = [0xe2, 0x82, 0xac] := by decide
 example : expandFields m₀ fs₀ false Mode.single [star] = [['*']] := by decide
+example : PeriodRule m₀ := by
+  intro pcs n h hd
+  simp [m₀, hd] at h
+-- the driver's checks succeed on a concrete dump and table (three files, `*` matching the two plain ones)
+example : wfDump [['a'], ['b'], ['.', 'h']] [(['.'], [['a'], ['b'], ['.', 'h']])] = true := by decide
+example : periodDump [{ pcs := [PatternChar.normal '*'], kind := Kind.pattern, names := [['a'], ['b']] }] = true := by
+  decide
+-- … and reject a dump in which a listed name does not exist, and a table in which `*` matches a dot file
+example : wfDump [['a']] [(['.'], [['a'], ['b']])] = false := by decide
+example : periodDump [{ pcs := [PatternChar.normal '*'], kind := Kind.pattern, names := [['.', 'h']] }] = false := by
+  decide
+/-- `/t/priv` (mode `m`) and `/t/pub` (0755), each holding a file `a` -/
+def w₀ (m : Nat) : World where
+  entries := [([], NodeKind.dir 0o755), ([['t']], NodeKind.dir 0o755),
+    ([['t'], ['p', 'r', 'i', 'v']], NodeKind.dir m), ([['t'], ['p', 'r', 'i', 'v'], ['a']], NodeKind.file),
+    ([['t'], ['p', 'u', 'b']], NodeKind.dir 0o755), ([['t'], ['p', 'u', 'b'], ['a']], NodeKind.file)]
+  fdFree := true
+
+/-- the unquoted word `*/a` -/
+def starSlashA : List AttrChar :=
+  ['*', '/', 'a'].map (fun c => { value := c, origin := Origin.literal, isQuoted := false, isQuoting := false })
+
+-- only the owner's search bit counts: 0700, 0710, 0100 are as good as 0755; 0070, 0644, 0011 are not
+example : ownerSearch 0o700 = true ∧ ownerSearch 0o710 = true ∧ ownerSearch 0o100 = true
+    ∧ ownerSearch 0o070 = false ∧ ownerSearch 0o644 = false ∧ ownerSearch 0o011 = false := by decide
+example : searchField m₀ (fsOfWorld (w₀ 0o700)) starSlashA = [['p','r','i','v','/','a'], ['p','u','b','/','a']] := by
+  decide
+example : searchField m₀ (fsOfWorld (w₀ 0o070)) starSlashA = [['p','u','b','/','a']] := by decide
+example : (w₀ 0o700).reachable [] [['t'], ['p','r','i','v'], ['a']] = true
+    ∧ (w₀ 0o070).reachable [] [['t'], ['p','r','i','v'], ['a']] = false := by decide
+example : (w₀ 0o700).isDir [] = true ∧ (∀ n, n ∈ [['p','r','i','v'], ['a']] → plainName n = true) := by
+  refine ⟨by decide, ?_⟩
+  intro n hn
+  simp only [List.mem_cons, List.not_mem_nil, or_false] at hn
+  rcases hn with e | e <;> subst e <;> decide
 example : NoWild m₀ (splitComponents qstar).1 (splitComponents qstar).2 := by unfold NoWild; decide
 example : (splitComponents star).2 = []
     ∧ m₀.kind (toPattern (splitComponents star).1) = Kind.pattern := by decide
